@@ -782,8 +782,13 @@ class RefResolver(object):
                 a URI fragment to resolve within it
         """
 
-        fragment = fragment.lstrip(u"/")
-        parts = unquote(fragment).split(u"/") if fragment else []
+        if fragment.startswith(u"/"):
+            # strip the one slash that introduces the first reference token,
+            # keeping empty tokens ("/" addresses the member named "")
+            fragment = fragment[1:]
+            parts = unquote(fragment).split(u"/")
+        else:
+            parts = unquote(fragment).split(u"/") if fragment else []
 
         for part in parts:
             part = part.replace(u"~1", u"/").replace(u"~0", u"~")
